@@ -123,6 +123,7 @@ CLAIMED["C07"] = dict(
 # the translator tie of DESIGN 11.6 (tools/gen_logic.py): which generated functions each property's Props file restates
 TIE = {
     "Reconcile": ("Fingerprint::same, reconcile_path and reconcile (reconcile.rs)", ["C02", "C06", "C07", "C08", "C18"]),
+    "BisyncApply": ("bidir.rs `apply` as the list of effects it performs (copies, removes, record updates, in program order), run on the model's working state, and - through Proofs/TieBisync.v - the bisync model's own per-path decision `rpath`", ["C02", "C06", "C07", "C08"]),
     "Cas": ("cas_decide (wire.rs)", ["C03", "C10", "C13"]),
     "Archive": ("Archive::load's trust decision (archive.rs)", ["C07"]),
     "Plan": ("needs_transfer, glob_match, is_excluded and build_plan (plan.rs)", ["C04", "C14", "C15", "C19"]),
